@@ -177,12 +177,15 @@ impl<'a> BlockFilterHashesProcess<'a> {
             // Update cached block filter hashes.
             let start_index = cached_hashes[index_offset..].len();
             let mut new_cached_hashes = cached_hashes;
-            if end_number > next_cached_check_point_number {
+            // The new block filter hashes may be all cached already (`start_index` is beyond them).
+            let new_size = if end_number > next_cached_check_point_number {
                 let excess_size = (end_number - next_cached_check_point_number) as usize;
-                let new_size = block_filter_hashes.len() - excess_size;
-                new_cached_hashes.extend_from_slice(&block_filter_hashes[start_index..new_size]);
+                block_filter_hashes.len() - excess_size
             } else {
-                new_cached_hashes.extend_from_slice(&block_filter_hashes[start_index..]);
+                block_filter_hashes.len()
+            };
+            if let Some(new_hashes) = block_filter_hashes.get(start_index..new_size) {
+                new_cached_hashes.extend_from_slice(new_hashes);
             }
             self.protocol
                 .peers
